@@ -122,8 +122,19 @@ def rframes(rng, mask, width):
         return rng.choice([0.0, 0.0, -0.0])
     if width == 1:
         return [(z() if rng.random() < 0.04 else rf32(rng)) if m else None for m in mask]
-    return [([z() for _ in range(width)] if rng.random() < 0.04 else [rf32(rng) for _ in range(width)]) if m else None
-            for m in mask]
+    out = [([z() for _ in range(width)] if rng.random() < 0.04 else [rf32(rng) for _ in range(width)]) if m else None
+           for m in mask]
+    if PARTIAL_NAN_P:
+        # a present frame (its first, presence-defining component is a number) whose *other* components are partly
+        # NaN: stored and read back as it is - presence is decided by the first component alone
+        for f in out:
+            if f is not None and rng.random() < PARTIAL_NAN_P:
+                for c in rng.sample(range(1, width), rng.randint(1, width - 1)):
+                    f[c] = float("nan")
+    return out
+
+
+PARTIAL_NAN_P = 0.04
 
 
 def rnframes(rng, big=False):
@@ -277,6 +288,7 @@ def gen_variant(rng: random.Random, kind: str):
     if kind == "data3D":
         v["links"] = rng.choice(["array", "tuples"])
         v["links_attr"] = rng.random() < 0.7
+        v["stray_links"] = rng.random() < 0.3
     if kind in ("calib", "optical"):
         v["vp"] = rng.choice(["object", "array22"])
     if kind == "events":
